@@ -419,11 +419,11 @@ CLASS_CONFIGS = {
     'thorough': [
         ('items', '1.0', dict(ItemNames=ALL_ITEMS | {"pLl", "PLl", "PNd", "pN", "PN", "pPd", "PPd", "pPc", "pZ", "PZ",
                                                       "pC", "PC", "PCc", "pSo", "PSo", "NL-AS", "_-AS", "a-a"},
-                              ItemNames3={"a", "5", "NL", "AS", "D", "S", "W", "d", "A-a", "PL", "I"},
+                              ItemNames3={"a", "5", "AS", "D", "S", "PL"},
                               SubNames=set(), MaxItems=3, MaxSubItems=1), 16, 4),
         ('items11', '1.1', dict(ItemNames=ALL_ITEMS, ItemNames3={"a", "AS", "i", "I", "c", "C", "D", "d"},
                                 SubNames=set(), MaxItems=3, MaxSubItems=1), 16, 4),
-        ('sub', '1.0', dict(ItemNames={"a", "b", "5", "NL", "AS", "HY", "a-b", "5-A", "d", "D", "S", "W", "s", "I"},
+        ('sub', '1.0', dict(ItemNames={"a", "5", "NL", "AS", "HY", "a-b", "d", "D", "S", "W"},
                             ItemNames3=set(), SubNames={"a", "5", "d", "D", "S", "W", "a-b"},
                             MaxItems=2, MaxSubItems=2), 64, 8),
         ('sub11', '1.1', dict(ItemNames={"a", "AS", "5", "d", "D", "I", "C", "s"}, ItemNames3=set(),
@@ -834,8 +834,8 @@ def run_fns(chk: core.Check, totals: dict) -> None:
         g = tla.load_dot(dot)
         os.remove(dot)
         states = [(st['r'], st['s'], st['nullable'], st['found'], tuple(st['adm'])) for st in g.states.values()]
-        if not any(x[2] for x in states) or not any(len(x[4]) > 1 for x in states) or not any(not x[3] for x in states):
-            raise tla.MachineryError(f'RegexFns/{name}: vacuous (no nullable pattern, no ambiguous partition or no non-match)')
+        if not any(len(x[4]) > 1 for x in states) or not any(not x[3] for x in states):
+            raise tla.MachineryError(f'RegexFns/{name}: vacuous (no ambiguous partition or no non-matching input)')
         states.sort(key=lambda x: (render(x[0]), x[1]))
         t0 = time.time()
         jobs = [(flag, '1.0', states[k::48]) for k in range(48)]
